@@ -24,6 +24,8 @@ from harness.props.c16 import canon_bqm, coef, energy, fr
 
 ALPHA = [0, 1, 2, 3, 'a', 'b', 'c', 'd', ('t', 1), 5]
 ADVERSARIAL = ['0*1', '1*0', '_0*1', 'a*b', 'b*a', 'aux0,1', 'aux1,0', 'auxa,b']
+# ints next to their digit strings: different pairs that format to the same product text ('1*2' / '2*1')
+MIXED = [1, '1', 2, '2', 3, '3', 'a', 'b']
 HDR = ('import warnings; warnings.simplefilter("ignore")\nimport itertools, dimod\nfrom fractions import Fraction as F\n'
        'def norm(raw, vt):\n'
        '    out = {}\n'
@@ -67,8 +69,14 @@ def gen_poly(r, big=False):
     vt = r.choice(['BINARY', 'SPIN'])
     n = r.randint(3, 6)
     pool = r.sample(ALPHA, n)
-    if r.random() < .08:
+    k = r.random()
+    if k < .08:
         pool = pool[:max(2, n - 2)] + r.sample(ADVERSARIAL, 2)
+    elif k < .22:
+        pool = r.sample(MIXED, min(n + 1, len(MIXED)))
+        if r.random() < .5:
+            pool = [1, '1', 2, '2'] + [v for v in pool if v not in (1, '1', 2, '2')][:2]
+            r.shuffle(pool)
     core = pool[:r.randint(2, min(4, n))]       # heavy overlap: most terms contain much of the core
     raw = []
     for _ in range(r.randint(1, 7)):
@@ -140,7 +148,7 @@ def one_case(ctx, r, lines, checks, big=False, directed=None):
         ctx.fail('property', site, 'degree', f'{raw!r}: reduced term of degree > 2', repro=src)
     if len(set(prods)) != len(prods) or set(prods) & set(pvars):
         bad = True
-        ctx.fail('property', site, 'product variable not fresh', f'{raw!r}: products {prods!r} variables {pvars!r}', repro=src)
+        ctx.fail('property', site, 'product variable not fresh', f'{raw!r}: product variables {prods!r} are not pairwise distinct and distinct from the variables {pvars!r} (constraints {cons_o!r})', repro=src)
     R = {}
     for t, b in reduced:
         R[t] = R.get(t, F(0)) + fr(b)
@@ -352,6 +360,16 @@ def aux_collision_directed():
     return 'SPIN', raw
 
 
+def same_text_pairs_directed():
+    """four different pairs whose members format to '1' and '2': {'1',2}, {1,'2'}, {'1','2'}, {1,2}; each is the
+    most frequent pair of two cubic terms, so all four become product pairs and their names must be told apart"""
+    raw = []
+    thirds = iter('abcdefgh')
+    for u, v in (('1', 2), (1, '2'), ('1', '2'), (1, 2)):
+        raw += [((u, v, next(thirds)), F(1)), ((u, v, next(thirds)), F(-2))]
+    return raw
+
+
 def run(ctx):
     r = ctx.rng
     ctx.rule = ('random polynomials of degree <= 6 (<= 7 thorough) over 3-6 variables with a shared core of variables (heavy pair overlap), both vartypes, repeated variables '
@@ -364,6 +382,8 @@ def run(ctx):
     one_case(ctx, r, lines, checks, directed=('BINARY', [((), F(-2))]))
     hoc_directed(ctx)
     one_case(ctx, r, lines, checks, directed=aux_collision_directed())
+    for vt in ('BINARY', 'SPIN'):
+        one_case(ctx, r, lines, checks, directed=(vt, same_text_pairs_directed()))
     for _ in range(ctx.scale(230, 2200)):
         one_case(ctx, r, lines, checks)
     if not ctx.quick:
